@@ -182,3 +182,39 @@ Definition digest (l : bytes) : N * N * bytes * bytes :=
 Definition digest_eqb (d : N * N * bytes * bytes) (o : N * N * string * string) : bool :=
   let '(n, a, h, t) := d in let '(n', a', h', t') := o in
   (n =? n') && (a =? a') && bytes_eqb h (unhex h') && bytes_eqb t (unhex t').
+
+(* ---- lengths in N, exact prefix split ---- *)
+Definition blen (l : bytes) : N := N.of_nat (length l).
+
+Fixpoint take_exact {A} (n : nat) (l : list A) : option (list A * list A) :=
+  match n, l with
+  | O, _ => Some ([], l)
+  | S n', x :: r => match take_exact n' r with Some (a, b) => Some (x :: a, b) | None => None end
+  | S _, [] => None
+  end.
+
+Lemma take_exact_app {A} (a b : list A) : take_exact (length a) (a ++ b) = Some (a, b).
+Proof. induction a as [|x a IH]; [reflexivity|]. cbn [length app take_exact]. rewrite IH. reflexivity. Qed.
+
+Lemma take_exact_spec {A} n (l a b : list A) : take_exact n l = Some (a, b) -> l = a ++ b /\ length a = n.
+Proof.
+  revert l a b; induction n as [|n IH]; intros l a b H; cbn [take_exact] in H.
+  - inversion H; subst. auto.
+  - destruct l as [|x r]; [discriminate|]. destruct (take_exact n r) as [[a' b']|] eqn:E; [|discriminate].
+    inversion H; subst. apply IH in E as [-> <-]. auto.
+Qed.
+
+Lemma take_exact_none {A} n (l : list A) : take_exact n l = None <-> (length l < n)%nat.
+Proof.
+  revert l; induction n as [|n IH]; intros l; cbn [take_exact].
+  - split; [discriminate|lia].
+  - destruct l as [|x r]; cbn [length]; [split; [lia|reflexivity]|].
+    destruct (take_exact n r) as [[a b]|] eqn:E.
+    + split; [discriminate|]. intro H. assert (HH : take_exact n r = None) by (apply IH; lia). congruence.
+    + split; [|reflexivity]. intros _. apply IH in E. lia.
+Qed.
+
+Lemma blen_nat l : N.to_nat (blen l) = length l.
+Proof. unfold blen. lia. Qed.
+Lemma blen_app a b : blen (a ++ b) = blen a + blen b.
+Proof. unfold blen. rewrite app_length. lia. Qed.
